@@ -54,6 +54,12 @@ type violation struct {
 // gitAllowed: paths (relative to .git) an operation may legitimately write.
 func gitAllowed(op, rel string) bool {
 	rel = filepath.ToSlash(rel)
+	if op == "pull" && strings.HasPrefix(rel, "refs/remotes/") {
+		return true // the fetch half of pull mirrors every remote branch (also the one named victim)
+	}
+	if strings.Contains(rel, "victim") || strings.Contains(rel, "pwn") {
+		return false // planted victim files / attacker payload names: no operation has a reason to touch them
+	}
 	top := strings.SplitN(rel, "/", 2)[0]
 	switch top {
 	case "HEAD", "ORIG_HEAD", "index", "index.lock", "objects", "refs", "logs", "packed-refs", ".tmp", "COMMIT_EDITMSG":
